@@ -69,6 +69,7 @@ def cells(tier):
     out += make_cells(PID, 'frame', tier, N=3, thin=plain, extra={'prefail': True}, suffix='after-refused-messages')
     # ... and when every story was re-sent by a roStorySend before
     out += make_cells(PID, 'frame', tier, N=3, thin=plain, extra={'presend': True}, suffix='after-roStorySend-of-every-story')
+    out += make_cells(PID, 'frame', tier, N=3, ops=['roStorySend'], extra={'empty_body': True}, suffix='empty-storyBody')
     # mixed content: character data of the parent after stories, items and paragraphs
     out += make_cells(PID, 'frame', tier, N=3, thin=plain, extra={'tails': True}, suffix='mixed-content')
     out += make_cells(PID, 'frame', tier, N=3, thin=plain, extra={'tails': True, 'tail': False, 'trail': 0}, suffix='mixed-content-named-element-last')
